@@ -468,6 +468,10 @@ func runC10(c *ctx) {
 				}
 			}
 			c10Eval(c, c10Case{Tpl: tpl, Counts: counts})
+			if len(counts) == 0 && len(ell) > 0 {
+				// only a key that names none of the template's ellipses: ignored, nothing is renamed
+				c10Eval(c, c10Case{Tpl: tpl, Counts: map[string]int{"...[77]": 1 + code%3}})
+			}
 			if len(counts) >= 2 {
 				// every non-trivial split into a first and a second step
 				var keys []string
